@@ -6,10 +6,13 @@ Tie (harness/c17_harness.cpp, real code in-process, shipped-flags and sanitizer 
   S  slicemultiply() vs PsV.sliceMultiply on small integers (exact in double): ranges, listed index set and every value exact;
   T  the same on sparse tensors with large index ranges (flattened sections of 2^16..2^22 columns: index arithmetic beyond 16 bits);
   G  splinetable::grideval and the C wrapper splinetable_grideval vs PsV.gridEval at Rat: ranges exact, listed index set
-     exact, every value within K_d*2^-53*Sum|coef|Prod|B| of the exact value.
+     exact, every value inside the proved rounding envelope (C17_grideval_rounding_envelope_tie_partial):
+     |impl - exact| <= gfac(u/(1-u), K) * majorant, u = 2^-53, K = Sum_d(5*order_d+1) + ndim + N, where the majorant (the cell
+     of PsV.gridEval on |coef| = Sum|coef|Prod B), N (PsV.NdSparse.nlisted: non-zero terms of the cell) and
+     PsV.gridRoundCount = Sum_d(5*order_d+1) are printed by the driver; worst ratio |impl-exact|/(2^-53*majorant) and K in coverage.
 Oracle (independent of the model): PsV.gridSpec = Sum_idx coef*Prod_d B_d (exact, Rat) on the implementation's output: value
 within the envelope, index ranges = grid lengths, unlisted => spec value exactly 0; real pointwise ndsplineeval<float> at every
-grid point strictly inside the knot range within (K_d*2^-53 + K_f*2^-24)*Sum|coef|Prod|B| wherever the right-continuous
+grid point strictly inside the knot range within gfac(K)*majorant + K_f*2^-24*Sum|coef|Prod|B| wherever the right-continuous
 basis of grideval and the evaluation convention coincide (PsV.gridSpec == PsV.specEval, decided exactly; by
 grideval_eq_pointwise that is everywhere except at a knot >= knots[naxes] of multiplicity > order, and the check asserts it).
 Concurrent phase: a handful of the generated tables/grids are evaluated again by 6 threads at the same time (C++ member and C entry
